@@ -318,7 +318,7 @@ var c14cycles = []struct{ desc, body string }{
 }
 
 func C14(c *core.Ctx) {
-	c.Rule = "load attempts in child processes (a fatal stack overflow or a hang is observed, not suffered): (a) every module of parser/testdata and generated modules (C01/C02/C06 generators) unchanged, (b) every one of them truncated at sampled token boundaries, (c) with one token deleted, duplicated or replaced from a pool of 90 keywords/punctuation/odd arguments, (d) 40 hand-written reference-cycle and dangling-reference modules (typedef, grouping, identity, leafref, augment, deviation, key, unique, if-feature …), (e) import/include graphs: chains, diamonds, self-import, cycles of length 2–4, include cycles, a module where a submodule is expected and the reverse, belongs-to of another module, (f) opener faults on the main file, an import or an include: missing, open error, read error, (g) pathological sizes: nesting depth up to 5000, 20000 siblings, 200 kB arguments, 2000-piece concatenations; every load must end within 20 s with a module or a non-empty error; a returned module is walked through every public accessor. Import graphs are also given to the Lean model of the resolver's import handling, outcome (ok / cycle error / missing) compared. non-trivial = mutated or faulty input; distinct by input"
+	c.Rule = "load attempts in child processes (a fatal stack overflow or a hang is observed, not suffered): (a) every module of parser/testdata and generated modules (C01/C02/C06 generators) unchanged, (b) every one of them truncated at sampled token boundaries, (c) with one token deleted, duplicated or replaced from a pool of 90 keywords/punctuation/odd arguments, (d) 40 hand-written reference-cycle and dangling-reference modules (typedef, grouping, identity, leafref, augment, deviation, key, unique, if-feature …), (e) import/include graphs: chains, diamonds, self-import, cycles of length 2–4, include cycles, a module where a submodule is expected and the reverse, belongs-to of another module, (f) opener faults on the main file, an import or an include: missing, open error, read error, (g) pathological sizes: nesting depth up to 5000, 20000 siblings, 200 kB arguments, 2000-piece concatenations; every load must end within 20 s with a module or a non-empty error; a returned module is walked through every public accessor. Import graphs are also given to the Lean model of the resolver's import handling, outcome (ok / cycle error / missing) compared. non-trivial = mutated or faulty input; distinct by input; typedef reference graphs (cycles directly and through union members, diamonds, missing types, random) decided by the same Lean model as the import graphs"
 	c.Assumptions = append(c.Assumptions,
 		"'promptly' is taken as 20 s per load on this machine (pathological sizes included)",
 		"the Lean theorems cover the termination and the cycle verdict of import resolution; for the rest of the loader this check is a search for crashing inputs, not a proof (labelled partial)")
@@ -480,6 +480,80 @@ func C14(c *core.Ctx) {
 		}
 		lines = append(lines, strings.Join(ln, " "))
 	}
+	// typedef reference graphs: the compiler follows a typedef's base type (and union members) with the same
+	// discipline as the resolver follows imports - being compiled = on the chain, compiled = reused - so the same
+	// model decides them: the module refers to every typedef, a typedef to the typedefs its type names
+	tgraphs := []graph{
+		{"typedef chain", map[string][]string{"t0": {"t1"}, "t1": {"t2"}, "t2": {}}},
+		{"typedef defined by itself", map[string][]string{"t0": {"t0"}}},
+		{"typedef cycle of 2", map[string][]string{"t0": {"t1"}, "t1": {"t0"}}},
+		{"typedef cycle of 3 behind a chain", map[string][]string{"t0": {"t1"}, "t1": {"t2"}, "t2": {"t3"}, "t3": {"t1"}}},
+		{"typedef cycle through a union member", map[string][]string{"t0": {"t1", "t2"}, "t1": {}, "t2": {"t0"}}},
+		{"typedef diamond through unions", map[string][]string{"t0": {"t1", "t2"}, "t1": {"t3"}, "t2": {"t3"}, "t3": {}}},
+		{"typedef cycle that no leaf uses", map[string][]string{"t0": {}, "t1": {"t2"}, "t2": {"t1"}}},
+		{"typedef of a missing type", map[string][]string{"t0": {"t1"}, "t1": {"nosuch"}}},
+	}
+	for i := 0; i < c.N(20, 400); i++ {
+		r := rng.Fork()
+		n := 2 + r.Intn(6)
+		e := map[string][]string{}
+		for x := 0; x < n; x++ {
+			var refs []string
+			switch r.Intn(4) {
+			case 0:
+			case 1, 2:
+				refs = []string{fmt.Sprintf("t%d", r.Intn(n))}
+			default:
+				refs = []string{fmt.Sprintf("t%d", r.Intn(n)), fmt.Sprintf("t%d", r.Intn(n))}
+			}
+			// mostly forward references so that acyclic graphs are common
+			if len(refs) > 0 && r.Chance(60) {
+				for k := range refs {
+					refs[k] = fmt.Sprintf("t%d", x+1+r.Intn(n-x))
+				}
+			}
+			for k := range refs {
+				if refs[k] == fmt.Sprintf("t%d", n) {
+					refs[k] = fmt.Sprintf("t%d", n-1)
+				}
+			}
+			e[fmt.Sprintf("t%d", x)] = refs
+		}
+		tgraphs = append(tgraphs, graph{fmt.Sprintf("random typedef graph %d", i), e})
+	}
+	for _, gr := range tgraphs {
+		var names []string
+		for n := range gr.edges {
+			names = append(names, n)
+		}
+		sort.Strings(names)
+		t := hdr("a")
+		for _, n := range names {
+			refs := gr.edges[n]
+			switch len(refs) {
+			case 0:
+				t += fmt.Sprintf("  typedef %s { type string; }\n", n)
+			case 1:
+				t += fmt.Sprintf("  typedef %s { type %s; }\n", n, refs[0])
+			default:
+				t += fmt.Sprintf("  typedef %s { type union { type %s; type %s; } }\n", n, refs[0], refs[1])
+			}
+		}
+		t += "  leaf x { type t0; }\n}"
+		graphCases = append(graphCases, len(cases))
+		add(c14case{Desc: "typedef graph: " + gr.desc, Files: map[string]string{"a": t}, Main: "a"})
+		ln := []string{"c14 imports", core.Hex("#module"), fmt.Sprint(len(names) + 1), core.Hex("#module"), fmt.Sprint(len(names))}
+		for _, n := range names {
+			ln = append(ln, core.Hex(n))
+		}
+		for _, n := range names {
+			ln = append(ln, core.Hex(n), fmt.Sprint(len(gr.edges[n])))
+			for _, im := range gr.edges[n] {
+				ln = append(ln, core.Hex(im))
+			}
+		}
+		lines = append(lines, strings.Join(ln, " "))
+	}
 	sub := "submodule s { belongs-to a { prefix a; }\n  leaf fromsub { type string; }\n}"
 	add(c14case{Desc: "include of a submodule", Files: map[string]string{"a": hdr("a") + "include s;\n}", "s": sub}, Main: "a"})
 	add(c14case{Desc: "submodule includes itself", Files: map[string]string{"a": hdr("a") + "include s;\n}", "s": "submodule s { belongs-to a { prefix a; } include s; }"}, Main: "a"})
@@ -630,7 +704,7 @@ func C14(c *core.Ctx) {
 			continue
 		}
 		if lib != want {
-			c.Violation(core.Replay{Kind: "correspondence", Class: "import-graph", Summary: fmt.Sprintf("%s: library %s; the resolver model says %s", cases[ci].Desc, results[ci], model),
+			c.Violation(core.Replay{Kind: "correspondence", Class: "graph-" + strings.Fields(cases[ci].Desc)[0], Summary: fmt.Sprintf("%s: library %s; the resolver model says %s", cases[ci].Desc, results[ci], model),
 				Input: map[string]interface{}{"files": cases[ci].Files}, Impl: results[ci], Model: model})
 		}
 	}
